@@ -51,9 +51,17 @@ def file_digest(src):
 
 
 def apply_edit(src, old, new):
-    if src.count(old) != 1:
-        return None
-    out = src.replace(old, new)
+    """One textual edit, or several in the same file when `old` is a list of (old, new) pairs (then `new` is ignored)."""
+    if isinstance(old, (list, tuple)):
+        out = src
+        for o, n in old:
+            if out.count(o) != 1:
+                return None
+            out = out.replace(o, n)
+    else:
+        if src.count(old) != 1:
+            return None
+        out = src.replace(old, new)
     try:
         ast.parse(out)
     except SyntaxError:
